@@ -43,11 +43,12 @@ def wH0 : H := { store := 0, mode := .rw, container := .raw, enc := .pcm ⟨16, 
                  datalength := 6, filelength := 6 }
 
 /-- `rpos ≤ frames` and `0 ≤ frames` are invariants of read-only handles only.  On a RDWR handle `sf_seek` accepts any
-    non-negative target (here: frame 5 of a 1-frame file), and SFC_FILE_TRUNCATE with −1 stores −1 as the frame
-    count (see C09).  Both states are reachable, so `HInv` cannot promise more for writable handles. -/
+    non-negative target (here: frame 5 of a 1-frame file), and on a route where `ftruncate` works (`canTruncate`, the
+    flag the harness records after the open) SFC_FILE_TRUNCATE with −1 stores −1 as the frame count (see C09).
+    Both states are reachable, so `HInv` cannot promise more for writable handles. -/
 theorem rdwr_positions_unbounded :
     (runOps wH0 wS0 [.seek 0 5 0]).1.rpos = 5 ∧ (runOps wH0 wS0 [.seek 0 5 0]).1.frames = 1 ∧
-    (runOps wH0 wS0 [.truncate 0 (-1)]).1.frames = -1 ∧
+    (runOps { wH0 with canTruncate := true } wS0 [.truncate 0 (-1)]).1.frames = -1 ∧
     openHandle 0 wS0 .rw 0x040002 2 8000 = .ok wH0 wS0 := by
   refine ⟨by decide, by decide, by decide, by rfl⟩
 
@@ -139,10 +140,13 @@ theorem read_short_only_at_end (h : H) (s : Store) (ty : Ty) (fc : Bool) (n : In
 
 /-! ### where the read-only hypothesis is needed
 
-On a RDWR handle the frame count can exceed what the store holds: SFC_FILE_TRUNCATE sets `sf.frames` before
-`psf_ftruncate` fails on virtual I/O (C09 `truncate_minus_one_sets_frames`).  After that a valid items read can return
-a fraction of a frame and stop short of the frame count.  (Real library, same script: `ret=3` for a 4-item request
-on a 2-channel file.) -/
+`HInv` does not say, for a writable handle, that the store holds `frames` whole frames.  Before the TRUNC-VIO repair such
+a state was reachable: SFC_FILE_TRUNCATE set `sf.frames` before `psf_ftruncate` failed on virtual I/O, and a valid items
+read then returned a fraction of a frame and stopped short of the frame count (`read_whole_frames_old_rule`; the
+unrepaired library, same script: `ret=3` for a 4-item request on a 2-channel file).  Since the repair the command is
+refused on virtual I/O before anything changes and on descriptor routes the store is cut or extended to exactly
+`frames`, so no modelled call sequence is known that reaches such a state; the full statement below still fails on
+`HInv` alone, because `HInv` lacks the clause (the RDWR invariant `RwInv` of C08Refine has it). -/
 
 /-- the read-only clauses stated for every mode -/
 def read_whole_frames_full : Prop :=
@@ -156,12 +160,26 @@ def wH : H := { store := 0, mode := .rw, container := .raw, enc := .pcm ⟨16, f
                 datalength := 6, filelength := 6 }
 theorem wH_opened : openHandle 0 wS .rw 0x040002 2 8000 = .ok wH wS := by rfl
 
-/-- witness: open RDWR a 6-byte stereo 16-bit RAW file (1 frame + 1 sample), SFC_FILE_TRUNCATE to 2 frames (fails,
-    frames = 2 stays), seek to 0, read 4 items: 3 items come back and the read position is 1 of 2 -/
+/-- the state the old rule reached: 2 frames announced, 6 bytes (1 frame + 1 sample) in the store -/
+def wH2 : H := { wH with frames := 2, rpos := 0, wpos := 0, lastOp := .r }
+
+/-- witness (a state allowed by `HInv`, not one a call sequence reaches since the repair): 4 items asked of the
+    2-frame / 6-byte state: 3 items come back and the read position is 1 of 2 -/
 theorem read_whole_frames_full_fails : ¬ read_whole_frames_full := by
   intro hfull
-  have hi := HInv_reachable 0 wS .rw 0x040002 2 8000 wH wS wH_opened [.truncate 0 2, .seek 0 0 0]
+  have hi : HInv wH2 wS := ⟨by decide, by decide, by decide, by decide, by decide, fun hm => by cases hm⟩
   exact absurd (hfull _ _ .s16 4 hi (by unfold ReadValid; decide)).1 (by decide)
+
+/-- OLD RULE (before the TRUNC-VIO repair, `stepTruncateOld`): open RDWR a 6-byte stereo 16-bit RAW file (1 frame + 1
+    sample) through virtual I/O, SFC_FILE_TRUNCATE to 2 frames (failed with −1 / SFE_SYSTEM, `frames = 2` stayed), seek
+    to 0 — exactly the state `wH2`, up to the error field; the current rule refuses the command and changes nothing -/
+theorem read_whole_frames_old_rule :
+    (stepSeek (stepTruncateOld wH wS 2).1 (stepTruncateOld wH wS 2).2.1 0 0).1 = { wH2 with error := 0 } ∧
+    (stepSeek (stepTruncateOld wH wS 2).1 (stepTruncateOld wH wS 2).2.1 0 0).2.1 = wS ∧
+    (stepTruncateOld wH wS 2).2.2.ret = -1 ∧
+    (stepRead wH2 wS .s16 false 4).2.2.ret = 3 ∧ (stepRead wH2 wS .s16 false 4).1.rpos = 1 ∧
+    stepTruncate wH wS 2 = ({ wH with error := 0 }, wS, { ret := 1 }) := by
+  refine ⟨by rfl, by rfl, by decide, by decide, by decide, by rfl⟩
 
 /-- what holds: read-only handles (`read_whole_frames`, `read_short_only_at_end` above) -/
 theorem read_whole_frames_partial (h : H) (s : Store) (ty : Ty) (n : Int) (hi : HInv h s) (hm : h.mode = .r)
